@@ -18,7 +18,7 @@ Variable vparse : text -> option rawversion.
 Variables specpat specver : vop -> text -> option (vop * list N).
 Variables pv pfv : N.
 Variable specparse : text -> option spec.
-Variable url_oracle : bool -> text -> option text.
+Variable url_oracle : ukind -> text -> option text.
 Variable getenv : text -> option text.
 Variable project_root : text.
 Variables verbatim ext : bool.
